@@ -166,28 +166,23 @@ type c07Point struct {
 }
 
 type c07rRun struct {
-	c           c07RecallCase
-	e           *engine.Engine
-	dir         string
-	prec        string
-	vecs        [][]float32
-	fresh       func() []float32
-	rng         *c07Rng
-	liveIDs     []string // ids currently live (harness view; VGet decides)
-	nextVec     int
-	hasSnap     bool
-	snapEP      string
-	snapDead    bool
-	dirtyDel    bool // a delete (or restart) happened since the entry point was last looked at
-	imported    bool // part of the current graph was built by VImport
-	restored    bool // a fast-import graph came back from a snapshot (needs-refine compensation lost)
-	counter     int  // harness estimate of the index's node counter (decides which batches take the parallel path)
-	nSeq, nPar  int  // nodes of the current graph inserted one by one (Index.Add) / by the parallel batch path
-	seqWork     bool // the history contains sequential inserts on a non-trivial graph (finding add-prune-unsorted)
-	excluded    int
-	excludedVac int
-	points      []c07Point
-	labels      map[string]bool
+	c          c07RecallCase
+	e          *engine.Engine
+	dir        string
+	prec       string
+	vecs       [][]float32
+	fresh      func() []float32
+	rng        *c07Rng
+	liveIDs    []string // ids currently live (harness view; VGet decides)
+	nextVec    int
+	hasSnap    bool
+	imported   bool // part of the current graph was built by VImport
+	restored   bool // a fast-import graph came back from a snapshot (needs-refine compensation lost)
+	counter    int  // harness estimate of the index's node counter (decides which batches take the parallel path)
+	nSeq, nPar int  // nodes of the current graph inserted one by one (Index.Add) / by the parallel batch path
+	seqWork    bool // the history contains sequential inserts on a non-trivial graph (finding add-prune-unsorted)
+	points     []c07Point
+	labels     map[string]bool
 }
 
 func c07VID(i int) string { return fmt.Sprintf("n%d", i) }
@@ -209,44 +204,8 @@ func (r *c07rRun) path() string {
 	return p
 }
 
-func (r *c07rRun) guardEP() string {
-	if !r.dirtyDel {
-		return ""
-	}
-	r.dirtyDel = false
-	if !verifkit.Known(c07FindingEP) {
-		return ""
-	}
-	g, err := c07ReadGraph(r.e)
-	if err != nil {
-		return "harness: " + err.Error()
-	}
-	if g.epDead() {
-		r.excluded++
-		r.labels["excluded:vacuum-before-use-of-deleted-entrypoint"] = true
-		if err := r.e.VTriggerMaintenance(c07Index, "vacuum"); err != nil {
-			return "harness: vacuum failed: " + err.Error()
-		}
-	}
-	return ""
-}
-
-func (r *c07rRun) noteSnapshot() {
-	r.hasSnap = true
-	r.snapEP, r.snapDead = "", false
-	if g, err := c07ReadGraph(r.e); err == nil && g.MaxLevel >= 0 {
-		if n := g.Nodes[g.EP]; n != nil {
-			r.snapEP = n.Id
-			r.snapDead = n.Deleted.Load()
-		}
-	}
-}
-
 // insert adds vectors [from, to) through the given path.
 func (r *c07rRun) insert(path string, from, to int) string {
-	if m := r.guardEP(); m != "" {
-		return m
-	}
 	switch path {
 	case "single":
 		for i := from; i < to; i++ {
@@ -299,7 +258,7 @@ func (r *c07rRun) insert(path string, from, to int) string {
 			if err := r.e.SaveSnapshot(); err != nil {
 				return "harness: SaveSnapshot failed: " + err.Error()
 			}
-			r.noteSnapshot()
+			r.hasSnap = true
 		}
 	}
 	r.labels["path:"+path] = true
@@ -307,9 +266,6 @@ func (r *c07rRun) insert(path string, from, to int) string {
 }
 
 func (r *c07rRun) measure(after string) string {
-	if m := r.guardEP(); m != "" {
-		return m
-	}
 	h, err := c07Hnsw(r.e)
 	if err != nil {
 		return "harness: " + err.Error()
@@ -433,36 +389,15 @@ func (r *c07rRun) phase(p string) string {
 	case "del10", "del30", "del50":
 		pct := map[string]int{"del10": 10, "del30": 30, "del50": 50}[p]
 		n := len(r.liveIDs) * pct / 100
-		// known finding "vacuum-entrypoint-level": once the entry point is deleted, the vacuum that has to
-		// follow (finding "deleted-entrypoint") re-elects the first live node and lowers maxLevel to that
-		// node's level, which flattens the hierarchy. While it is listed the entry point is never deleted.
-		// (Deletes do not move the entry point, so one look per phase is enough.)
-		epID := ""
-		if verifkit.Known(c07FindingVac) {
-			if g, err := c07ReadGraph(r.e); err == nil && g.MaxLevel >= 0 {
-				if nd := g.Nodes[g.EP]; nd != nil && !nd.Deleted.Load() {
-					epID = nd.Id
-				}
-			}
-		}
 		for i := 0; i < n && len(r.liveIDs) > 1; i++ {
 			j := r.rng.intn(len(r.liveIDs))
 			id := r.liveIDs[j]
-			if id == epID {
-				r.excludedVac++
-				r.labels["excluded:entry-point-not-deleted"] = true
-				continue
-			}
 			r.liveIDs[j] = r.liveIDs[len(r.liveIDs)-1]
 			r.liveIDs = r.liveIDs[:len(r.liveIDs)-1]
 			if err := r.e.VDelete(c07Index, id); err != nil {
 				return fmt.Sprintf("harness: VDelete(%s) failed: %v", id, err)
 			}
-			if r.hasSnap && id == r.snapEP {
-				r.snapDead = true
-			}
 		}
-		r.dirtyDel = true
 	case "vacuum", "refine":
 		if err := r.e.VTriggerMaintenance(c07Index, p); err != nil {
 			return "harness: maintenance failed: " + err.Error()
@@ -487,19 +422,11 @@ func (r *c07rRun) phase(p string) string {
 			return "harness: VCompress failed: " + err.Error()
 		}
 		r.prec = to
-		r.noteSnapshot()
+		r.hasSnap = true
 		// the index was rebuilt from scratch by sequential inserts of the live vectors
 		r.imported, r.restored, r.seqWork = false, false, true
 		r.counter, r.nSeq, r.nPar = len(r.liveIDs), len(r.liveIDs), 0
 	case "restart":
-		if verifkit.Known(c07FindingEP) && r.hasSnap && r.snapDead {
-			if err := r.e.SaveSnapshot(); err != nil {
-				return "harness: SaveSnapshot failed: " + err.Error()
-			}
-			r.noteSnapshot()
-			r.excluded++
-			r.labels["excluded:snapshot-before-restart(log tail deletes the snapshot's entry point)"] = true
-		}
 		if err := r.e.Close(); err != nil {
 			return "harness: Close failed: " + err.Error()
 		}
@@ -509,7 +436,6 @@ func (r *c07rRun) phase(p string) string {
 			return "harness: Open after Close failed: " + err.Error()
 		}
 		r.e = e
-		r.dirtyDel = true
 		if !r.hasSnap {
 			// log-only recovery re-inserts the live vectors one by one
 			r.seqWork = true
@@ -752,12 +678,6 @@ func TestVerif_C07_recall(t *testing.T) {
 		msg, r := c07RunRecall(c)
 		col.Landed()
 		col.Case(c, c.N >= 500, append(r.labelList(), extra...)...)
-		if r.excluded > 0 {
-			col.Excluded(c07FindingEP)
-		}
-		if r.excludedVac > 0 {
-			col.Excluded(c07FindingVac)
-		}
 		if msg == "" {
 			msg = c07Judge(c, r.points)
 		}
